@@ -245,7 +245,8 @@ const META: Meta = Meta {
 
 pub fn run(env: &Env, replay: Option<&Path>) -> i32 {
     let mut report = Report::new();
-    let subs: [&dyn DynSub; 4] = [&FeltBin, &FeltUn, &BatchInv, &ConcurrentRepeat];
+    let cold = crate::coldstart::ColdStart("C12");
+    let subs: [&dyn DynSub; 5] = [&FeltBin, &FeltUn, &BatchInv, &ConcurrentRepeat, &cold];
     if let Some(p) = replay {
         if let Err(e) = replay_file(env, &subs, p, &mut report) {
             eprintln!("harness: {}", e);
@@ -265,5 +266,8 @@ pub fn run(env: &Env, replay: Option<&Path>) -> i32 {
     report.notes.push("exhaustive applies to the five element operations and the i16 conversion; batch inversion is sampled".into());
     drive(env, &BatchInv, env.tier.pick(20_000, 400_000), &mut report);
     drive(env, &ConcurrentRepeat, env.tier.pick(160, 3_200), &mut report);
+    // fresh processes whose threads make their first calls at the same moment
+    report.notes.push(crate::coldstart::NOTE.to_string());
+    drive(env, &cold, env.tier.pick(240, 6000), &mut report);
     finish(env, report, &META)
 }
